@@ -274,6 +274,55 @@ func genXtextValue(t *rapid.T, label string) (raw, enc string) {
 	return raw, ref.XtextEncode(raw, rapid.IntRange(0, 4).Draw(t, label+"_all") == 0)
 }
 
+// genUTF8AddrValue puts a utf-8-addr-xtext / -unitext value together from
+// pieces: literal characters (those that must not appear literally among
+// them), raw UTF-8, and \x{HEXPOINT} with the hexpoint at and around every
+// boundary of RFC 6533's HEXPOINT production, with leading zeros, lower-case
+// digits, too few and too many digits. What is well-formed is for the
+// classifier to say.
+func genUTF8AddrValue(t *rapid.T, utf8ok bool) string {
+	lit := []string{"a", "Z", "7", "@", ".", "-", "_", "~", "!", "#", "{", "}", "x", "/", "?", "\"", "<", ">", "(", ",", ";", ":", "+", "=", "\\", "\\x", "\\x{", "+2B"}
+	raw := []string{"\u00e9", "\u20ac", "\U0001F600", "\u00fc", "\u7528"}
+	bounds := []uint32{0x0, 0x1, 0x9, 0xA, 0xF, 0x10, 0x11, 0x19, 0x1A, 0x1F, 0x20, 0x21, 0x2A, 0x2B, 0x2C, 0x3C, 0x3D, 0x3E, 0x41, 0x5B, 0x5C, 0x5D, 0x7E, 0x7F, 0x80, 0xA0, 0xE9, 0xFF,
+		0x100, 0x7FF, 0x800, 0xFFF, 0x1000, 0xD7FF, 0xD800, 0xDBFF, 0xDC00, 0xDFFF, 0xE000, 0xFFFD, 0xFFFF, 0x10000, 0x1F600, 0xFFFFF, 0x100000, 0x10FFFF, 0x110000, 0x1FFFFF, 0x200000, 0xFFFFFF}
+	var sb strings.Builder
+	for i, n := 0, rapid.IntRange(1, 6).Draw(t, "u8a_n"); i < n; i++ {
+		switch k := rapid.IntRange(0, 9).Draw(t, "u8a_kind"); {
+		case k <= 3:
+			sb.WriteString(rapid.SampledFrom(lit[:13]).Draw(t, "u8a_plain"))
+		case k == 4:
+			sb.WriteString(rapid.SampledFrom(lit).Draw(t, "u8a_lit"))
+		case k == 5:
+			sb.WriteString(rapid.SampledFrom(raw).Draw(t, "u8a_raw"))
+		default:
+			cp := rapid.SampledFrom(bounds).Draw(t, "u8a_cp")
+			if rapid.IntRange(0, 3).Draw(t, "u8a_anycp") == 0 {
+				cp = rapid.Uint32Range(0, 0x120000).Draw(t, "u8a_cpfree")
+			}
+			h := fmt.Sprintf("%X", cp)
+			switch rapid.IntRange(0, 9).Draw(t, "u8a_form") {
+			case 0:
+				h = "0" + h
+			case 1:
+				h = "00" + h
+			case 2:
+				h = strings.ToLower(h)
+			case 3:
+				if len(h) == 1 {
+					h = "0" + h // the only way to write U+0001..U+0009, U+000A..
+				}
+			default:
+				if len(h) == 1 {
+					h = "0" + h
+				}
+			}
+			sb.WriteString("\\x{" + h + "}")
+		}
+	}
+	_ = utf8ok
+	return sb.String()
+}
+
 // genDateTime draws an RFC 3339 date-time component by component.
 func genDateTime(t *rapid.T, label string) string {
 	year := rapid.SampledFrom([]int{1, 1969, 1970, 1999, 2000, 2014, 2024, 2038, 2100, 9999}).Draw(t, label+"_y")
@@ -329,7 +378,7 @@ func genValidLine(t *rapid.T, mail bool, f ref.Flags) string {
 		if rapid.Bool().Draw(t, "p_size") {
 			sz := rapid.SampledFrom([]string{"0", "1", "1024", "4294967295", "4294967296", "9223372036854775807", "12345678901234567"}).Draw(t, "size")
 			if rapid.Bool().Draw(t, "size_free") {
-				sz = rapid.StringMatching(`[1-9][0-9]{0,17}`).Draw(t, "size_digits")
+				sz = rapid.StringMatching(`[0-9]{1,21}`).Draw(t, "size_digits")
 			}
 			add(randCase(t, "SIZE", "kc") + "=" + sz)
 		}
@@ -338,13 +387,13 @@ func genValidLine(t *rapid.T, mail bool, f ref.Flags) string {
 			if f.BinaryMIME {
 				b = append(b, "BINARYMIME", "binarymime")
 			}
-			add(randCase(t, "BODY", "kc") + "=" + rapid.SampledFrom(b).Draw(t, "body"))
+			add(randCase(t, "BODY", "kc") + "=" + randCase(t, rapid.SampledFrom(b).Draw(t, "body"), "body_case"))
 		}
 		if f.UTF8 && rapid.Bool().Draw(t, "p_utf8") {
 			add(randCase(t, "SMTPUTF8", "kc"))
 		}
 		if f.DSN && rapid.Bool().Draw(t, "p_ret") {
-			add(randCase(t, "RET", "kc") + "=" + rapid.SampledFrom([]string{"FULL", "HDRS", "full", "Hdrs"}).Draw(t, "ret"))
+			add(randCase(t, "RET", "kc") + "=" + randCase(t, rapid.SampledFrom([]string{"FULL", "HDRS", "FULL", "HDRS", "HDR", "FULLS", "ALL"}).Draw(t, "ret"), "ret_case"))
 		}
 		if f.DSN && rapid.Bool().Draw(t, "p_envid") {
 			_, enc := genXtextValue(t, "envid")
@@ -360,11 +409,26 @@ func genValidLine(t *rapid.T, mail bool, f ref.Flags) string {
 	} else {
 		if f.DSN && rapid.Bool().Draw(t, "p_notify") {
 			sets := []string{"NEVER", "SUCCESS", "FAILURE", "DELAY", "SUCCESS,FAILURE", "FAILURE,SUCCESS", "DELAY,FAILURE,SUCCESS", "success,delay", "Never"}
-			add(randCase(t, "NOTIFY", "kc") + "=" + rapid.SampledFrom(sets).Draw(t, "notify"))
+			nv := rapid.SampledFrom(sets).Draw(t, "notify")
+			if rapid.Bool().Draw(t, "notify_free") {
+				// any list of items, in any order and spelling; repeated
+				// items, NEVER in company and strangers are for the
+				// classifier to refuse
+				var items []string
+				for i, n := 0, rapid.IntRange(1, 4).Draw(t, "notify_n"); i < n; i++ {
+					it := rapid.SampledFrom([]string{"NEVER", "SUCCESS", "FAILURE", "DELAY", "SUCCESS", "FAILURE", "DELAY", "DELAYED", ""}).Draw(t, "notify_item")
+					items = append(items, randCase(t, it, "notify_case"))
+				}
+				nv = strings.Join(items, ",")
+			}
+			add(randCase(t, "NOTIFY", "kc") + "=" + nv)
 		}
 		if f.DSN && rapid.Bool().Draw(t, "p_orcpt") {
 			if rapid.Bool().Draw(t, "orcpt_utf8") {
 				v := rapid.SampledFrom([]string{"user@example.org", `a\x{20}b@c`, `\x{5C}\x{2B}\x{3D}`, `\x{E9}t\x{E9}@x`, `\x{1F600}@x`, `\x{10FFFF}`, `\x{7F}\x{01}\x{19}`, `\x{100}\x{FFF}\x{D7FF}\x{E000}`}).Draw(t, "orcptv")
+				if rapid.IntRange(0, 2).Draw(t, "orcpt_free") > 0 {
+					v = genUTF8AddrValue(t, f.UTF8)
+				}
 				add(randCase(t, "ORCPT", "kc") + "=" + randCase(t, "utf-8", "tc") + ";" + v)
 			} else {
 				_, enc := genXtextValue(t, "orcpt")
